@@ -16,6 +16,7 @@ META = {
                    ' R13.7 every evaluation of a literal yields its own object (nothing mutable in place leaves the constant pool by reference). R13.8 an index (like every immediate) is decoded as an integer only behind a test of its tag.',
     'not_decided': ['the contents of any particular array/string after a sequence of operations'],
 }
+META['explanation'] += ' R13.9 no single byte of a text becomes a character unless tested to be ASCII. R13.2 also accepts indexing by lookup (nth from the front under index >= 0, from the back with |index| - 1 under index < 0, not found = index error).'
 
 UNIT_OF_LEN = [('alloc::vec::Vec::<T, A>::len', 'elements'), ('core::slice::<impl [T]>::len', 'elements'), ('::count', 'characters'),
                ('core::str::<impl str>::len', 'bytes'), ('alloc::string::String::len', 'bytes')]
